@@ -42,6 +42,8 @@ type Frame struct {
 	fn      *FuncRef
 	vars    map[types.Object]*Obj
 	results []Value
+	defers  []deferredCall
+	parent  *Frame // enclosing frame of a function literal's frame (captured variables are looked up there)
 	byName  map[string]*Obj
 	types   map[string]types.Type
 }
@@ -63,16 +65,19 @@ type Exec struct {
 	loopCount int
 	depth     int
 
-	entry       *Snapshot
-	specVars    map[string]Value // param name -> entry value
-	inputs      map[string]*Term
-	globals     map[types.Object]*Obj
-	errCodes    map[string]int64
-	lazyForall  []lazyForall
-	forceInline bool
-	results     []Value
-	steps       int
-	ghost       map[string]*Term // ghost state (e.g. trace, rnd cursor)
+	entry        *Snapshot
+	specVars     map[string]Value // param name -> entry value
+	inputs       map[string]*Term
+	globals      map[types.Object]*Obj
+	brLabel      string          // label of the break/continue being propagated ("" = innermost)
+	pendingLabel string          // label of the statement about to be executed
+	globalsRead  map[string]bool // package-level variables materialised during this run (qualified names)
+	errCodes     map[string]int64
+	lazyForall   []lazyForall
+	forceInline  bool
+	results      []Value
+	steps        int
+	ghost        map[string]*Term // ghost state (e.g. trace, rnd cursor)
 
 	curAssign       *ast.AssignStmt
 	atoms           map[[2]*Term]*Term
